@@ -33,6 +33,16 @@ pub struct Case {
     pub c2s: Vec<u8>,
     pub s2c: Vec<u8>,
     pub rt_seed: u64,
+    /// further calls multiplexed concurrently on the same connection
+    #[serde(default)]
+    pub others: Vec<Other>,
+}
+
+#[derive(Clone, Debug, Serialize, Deserialize)]
+pub struct Other {
+    pub shape: Shape,
+    pub script: HandlerScript,
+    pub req_msgs: Vec<(Blob, u8)>,
 }
 
 pub fn pipe_schedule() -> BoxedStrategy<Vec<u8>> {
@@ -92,6 +102,17 @@ pub fn handler_script(streaming_response: bool) -> BoxedStrategy<HandlerScript> 
         .boxed()
 }
 
+fn other() -> BoxedStrategy<Other> {
+    prop_oneof![Just(Shape::Unary), Just(Shape::ClientStream), Just(Shape::ServerStream), Just(Shape::Bidi)]
+        .prop_flat_map(|shape| {
+            let streaming_resp = matches!(shape, Shape::ServerStream | Shape::Bidi);
+            let streaming_req = matches!(shape, Shape::ClientStream | Shape::Bidi);
+            let nreq = if streaming_req { 0usize..=4 } else { 1usize..=1 };
+            (handler_script(streaming_resp), proptest::collection::vec((wire_blob(true), prop_oneof![4 => Just(0u8), 1 => 1u8..=2]), nreq)).prop_map(move |(script, req_msgs)| Other { shape, script, req_msgs })
+        })
+        .boxed()
+}
+
 pub fn strategy() -> BoxedStrategy<Case> {
     (prop_oneof![Just(Shape::Unary), Just(Shape::ClientStream), Just(Shape::ServerStream), Just(Shape::Bidi)], any::<bool>())
         .prop_flat_map(|(shape, prost)| {
@@ -105,8 +126,9 @@ pub fn strategy() -> BoxedStrategy<Case> {
                 pipe_schedule(),
                 pipe_schedule(),
                 any::<u64>(),
+                prop_oneof![3 => Just(vec![]).boxed(), 1 => proptest::collection::vec(other(), 1..=3).boxed()],
             )
-                .prop_map(move |(script, req_md, req_msgs, c2s, s2c, rt_seed)| Case { shape, prost, script, req_md, req_msgs, c2s, s2c, rt_seed })
+                .prop_map(move |(script, req_md, req_msgs, c2s, s2c, rt_seed, others)| Case { shape, prost, script, req_md, req_msgs, c2s, s2c, rt_seed, others })
         })
         .boxed()
 }
@@ -275,7 +297,9 @@ pub fn judge_server(shape: Shape, script: &HandlerScript, log: &[CallLog], req_m
 }
 
 pub fn run(c: &Case, o: &mut Outcome) -> Result<(), Failure> {
-    let sh = Shared::new(vec![c.script.clone()]);
+    let mut scripts = vec![c.script.clone()];
+    scripts.extend(c.others.iter().map(|x| x.script.clone()));
+    let sh = Shared::new(scripts);
     let streaming_resp = matches!(c.shape, Shape::ServerStream | Shape::Bidi);
     let k = c.script.msgs.len();
     let small_reads = c.c2s.iter().chain(c.s2c.iter()).any(|s| (1..9).contains(s));
@@ -295,6 +319,7 @@ pub fn run(c: &Case, o: &mut Outcome) -> Result<(), Failure> {
     o.label_if(small_reads, "reads_inside_frame_header");
     o.label_if(c.req_msgs.iter().any(|m| m.0.len() > 16384) || c.script.msgs.iter().any(|m| m.data.len() > 16384), "message_over_one_h2_frame");
     o.label_if(c.prost, "prost");
+    o.label_if(!c.others.is_empty(), "multiplexed_calls");
     let err_rich = c.script.outcome.as_ref().map(|s| s.details.len() > 0 && !s.md.is_empty()).unwrap_or(false);
     o.nontrivial = (c.script.outcome.is_some() && streaming_resp && c.script.err_kind == Some(ErrKind::StreamItem) && k >= 1) || err_rich || (k >= 2 && small_reads);
 
@@ -305,6 +330,7 @@ pub fn run(c: &Case, o: &mut Outcome) -> Result<(), Failure> {
     let prost = c.prost;
     let req_md = c.req_md.clone();
     let sh2 = sh.clone();
+    let others = c.others.clone();
     let res = rt::run_virtual(c.rt_seed, Duration::from_secs(3600), async move {
         let server = tonic::transport::Server::builder();
         let mut server = server;
@@ -318,19 +344,47 @@ pub fn run(c: &Case, o: &mut Outcome) -> Result<(), Failure> {
             Ok(ch) => ch,
             Err(e) => return Err(format!("connect failed: {e:?}")),
         };
+        // the other calls run concurrently on the same channel (same HTTP/2 connection)
+        let mut tasks = vec![];
+        for (i, x) in others.iter().enumerate() {
+            let ch2 = ch.clone();
+            let md = vec![MdEntry { name: "x-script".into(), val: crate::infra::blob::hex((i + 1).to_string().as_bytes()) }];
+            let msgs: Vec<(Vec<u8>, u8)> = x.req_msgs.iter().map(|(b, p)| (b.bytes(), *p)).collect();
+            let sh = x.shape;
+            tasks.push(tokio::spawn(async move { if prost { calls_prost(ch2, sh, &md, msgs).await } else { calls_raw(ch2, sh, &md, msgs).await } }));
+        }
         let ob = if prost { calls_prost(ch, shape, &req_md, req_msgs).await } else { calls_raw(ch, shape, &req_md, req_msgs).await };
+        let mut obs_others = vec![];
+        for t in tasks {
+            match t.await {
+                Ok(o) => obs_others.push(o),
+                Err(e) => return Err(format!("concurrent call task failed: {e}")),
+            }
+        }
         rt::quiesce().await;
         srv.abort();
-        Ok(ob)
+        Ok((ob, obs_others))
     });
     let ob = match res {
         Err(_) => bail!("C02/call-never-completes", "the call did not complete (virtual-time watchdog: nothing left to run)"),
         Ok(Err(e)) => bail!("C02/connect", "{e}"),
         Ok(Ok(ob)) => ob,
     };
+    let (ob, obs_others) = ob;
     judge_client(c.shape, &c.script, &ob)?;
     let log = sh.log.lock().unwrap().clone();
-    judge_server(c.shape, &c.script, &log, &c.req_md, &sent)?;
+    let main_log: Vec<CallLog> = log.iter().filter(|l| l.script == 0).cloned().collect();
+    judge_server(c.shape, &c.script, &main_log, &c.req_md, &sent)?;
+    for (i, (x, obx)) in c.others.iter().zip(obs_others.iter()).enumerate() {
+        let tag = |mut f: Failure| {
+            f.detail = format!("multiplexed call {}: {}", i + 1, f.detail);
+            f
+        };
+        judge_client(x.shape, &x.script, obx).map_err(tag)?;
+        let xl: Vec<CallLog> = log.iter().filter(|l| l.script == i + 1).cloned().collect();
+        let sent_x: Vec<Vec<u8>> = if matches!(x.shape, Shape::ClientStream | Shape::Bidi) { x.req_msgs.iter().map(|m| m.0.bytes()).collect() } else { vec![x.req_msgs.first().map(|m| m.0.bytes()).unwrap_or_default()] };
+        judge_server(x.shape, &x.script, &xl, &[], &sent_x).map_err(tag)?;
+    }
     Ok(())
 }
 
